@@ -252,7 +252,8 @@ func c20r3(c *Ctx) {
 
 func c20r4(c *Ctx) {
 	r := getSeedRoles(c)
-	f := r.dec
+	// helpers, local closures and library searches expanded
+	f := c.P.Views("wallet", ir.ExpandOpt{Key: "all"}).Of(r.dec)
 	g := f.Graph()
 	c.VisitGraph(f)
 	// the words variable: result of strings.Fields
